@@ -279,6 +279,10 @@ def run(facts, rep, tier, ctx):
     c10.marker_rules(facts, rep, ws, prefix="R04.4m", only=("R10.3",))
     n = read_to_string_rules(facts, rep, ws, D)
     rep.floor("read_to_string obligations", n, 2)
+    for w4j in (ws, World(facts, True)):
+        if w4j.present():
+            from .c10 import _Prefixed as _Pf4j
+            c09.relative_join_rules(facts, rep if not w4j.asyncw else _Pf4j(rep, "A"), w4j, rule="R04.4j")
     # R04.6 "that file": a write session changes the bytes of the path it was opened on and of no other — the physical translator
     # maps distinct names to distinct OS paths (a backslash is part of a name; splitting on it makes `2024\\report.txt` and
     # `2024/report.txt` one file), and a native two-path operation of an in-memory backend re-keys exactly the subtree it was
